@@ -19,7 +19,7 @@ ITEMS = ["range pattern shape (^bytes=(\\d*)-(\\d*)$, re.ASCII, findall()[0])", 
          "tail_count (file_size - start)", "range_count (min(end or file_size, file_size) - start)",
          "unsat_test (start >= file_size)", "Content-Range formats", "if-range test (file_mtime <= ifrange)",
          "status codes 206/304/403/404/412/416", "ENCODING_EXTENSIONS order", "_unquote_path_safe replacements",
-         "zero-count shortcut (count == 0)", "fallback loop guard (count <= 0) and min(chunk_size, count)"]
+         "sandbox fixed-point check (file_path.resolve() != file_path -> ValueError)", "zero-count shortcut (count == 0)", "fallback loop guard (count <= 0) and min(chunk_size, count)"]
 
 WR = "aiohttp/web_request.py"
 FR = "aiohttp/web_fileresponse.py"
@@ -418,8 +418,13 @@ def _dispatcher_shape():
     if follow != [_stmt("normalized_path = Path(os.path.normpath(unresolved_path))"), _stmt("normalized_path.relative_to(self._directory)"),
                   _stmt("file_path = normalized_path.resolve()")]:
         raise TranslatorError("_resolve_path_to_response: follow branch is not normpath / relative_to / resolve")
-    if nofollow != [_stmt("file_path = unresolved_path.resolve()"), _stmt("file_path.relative_to(self._directory)")]:
-        raise TranslatorError("_resolve_path_to_response: sandbox branch is not resolve / relative_to(self._directory)")
+    nf = t0.body[0].orelse
+    if len(nf) != 3 or nofollow[:2] != [_stmt("file_path = unresolved_path.resolve()"), _stmt("file_path.relative_to(self._directory)")]:
+        raise TranslatorError("_resolve_path_to_response: sandbox branch is not resolve / relative_to(self._directory) / fixed-point check")
+    # fix 706b3e0: the resolved path must be a fixed point of resolve()
+    if not (isinstance(nf[2], ast.If) and _dump(nf[2].test) == _expr("file_path.resolve() != file_path")):
+        raise TranslatorError("_resolve_path_to_response: sandbox branch lacks `if file_path.resolve() != file_path:`")
+    _only_raises(nf[2])
     if len(t0.handlers) != 1 or _dump(t0.handlers[0].type) != _expr("(ValueError, *CIRCULAR_SYMLINK_ERROR)"):
         raise TranslatorError("_resolve_path_to_response: handler must catch (ValueError, *CIRCULAR_SYMLINK_ERROR)")
     hb = t0.handlers[0].body
